@@ -6,6 +6,8 @@ import PteraModel.Driver.Lifecycle
 import PteraModel.Driver.Ctx
 import PteraModel.Driver.Sched
 import PteraModel.Driver.Registry
+import PteraModel.Driver.Rewrite
+import PteraModel.Driver.Exec
 open Lean
 
 def dispatch (j : Json) : Json :=
@@ -19,6 +21,8 @@ def dispatch (j : Json) : Json :=
   | "ctx" => Ptera.Driver.Ctx.handle j
   | "lifecycle" => Ptera.Driver.Lifecycle.handle j
   | "tagmatch" => Ptera.Driver.Handlers.handleTag j
+  | "rewrite" => Ptera.Driver.Rewrite.handle j
+  | "exec" => Ptera.Driver.Exec.handle j
   | "ping" => Json.mkObj [("ok", "pong")]
   | _ => Json.mkObj [("err", "bad-op")]
 
